@@ -246,7 +246,7 @@ def registry_bad(sc, sysm):
   n0 = sc.info["initial_size"]
   done = all_done(sc, sysm)
   crash = any_crash(sc, sysm)
-  new_names = sorted({a for (k, a) in ops if isinstance(a, str) and k in ("append", "event")})
+  new_names = sorted({a for (k, a) in ops if isinstance(a, str) and k in ("append", "event", "attr")})
 
   def f(B, st):
     bad = []
@@ -255,7 +255,7 @@ def registry_bad(sc, sysm):
     # numbers of the registered cells must be 1..size in order (a bijection)
     for i in range(4):
       bad.append(B.and_(B.ult(B.const(i), size), B.not_(B.eq(st["signals.v%d" % i], B.const(i + 1)))))
-    appenders = [(t, a) for t, (k, a) in enumerate(ops) if k == "append"]
+    appenders = [(t, a) for t, (k, a) in enumerate(ops) if k in ("append", "attr")]
     for x in range(len(appenders)):
       for y in range(x + 1, len(appenders)):
         (ta, na), (tb, nb) = appenders[x], appenders[y]
